@@ -338,6 +338,7 @@ func checkSecurityGeneratorState(c *core.Ctx) error {
 			r.Undecided("anchor:bitset.Set", c.Pos(gs.Pos()), "no bitset.Set call found in generateSecurities")
 		}
 	}
+	checkResetBufferNotRetained(c, r, prog, core.Module+"/openapi/parser", pkgGen)
 	// (b)
 	pp := prog.ByPath[core.Module+"/openapi/parser"]
 	if pp == nil {
